@@ -4,6 +4,7 @@
 """
 import glob
 import json
+import re
 import os
 import time
 from collections import Counter
@@ -1193,6 +1194,9 @@ def e2e_checks(ctx, pid, seed, count, opts_fn, what_prefix, rooms=False, cov_key
             w = "%s: an import file was written although the exit status is %s" % (what_prefix, r["exit"])
         if r["exit"] == 0:
             st["files_checked"] += 1
+        if r["exit"] == 65:
+            m65 = re.search(r"ERROR cdecao\] (.*)", r["stderr"] or "")
+            st["refused: " + (m65.group(1)[:60] if m65 else "?")] += 1
         if rooms and r.get("rooms"):
             st["rooms_%s" % r["rooms"]["rooms_arg"][0]] += 1
         if w:
